@@ -828,34 +828,16 @@ def sym_to_int(x: SymReal) -> int:
     if x.u is not None and CTX.sink is not None:
         CTX.sink.definedness(x.u, "int() of possibly undefined value", _caller_site())
     t = x.z
-    # search feasible integers by repeated model queries (bounded by INT_FORK_CAP)
-    tried = 0
-    lo_excl = []
-    while True:
-        tried += 1
-        if tried > INT_FORK_CAP:
-            raise PathCapExceeded("int() fork cap")
-        # candidate: ask the solver for a model of the current pc
-        CTX.solver.push()
-        for v in lo_excl:
-            CTX.solver.add(z3.Not(_trunc_is(t, v)))
-        r = CTX.solver.check()
-        if r != z3.sat:
-            CTX.solver.pop()
-            if r == z3.unsat:
-                raise PathAbort("no more integer values")
-            raise PyvcError("int(): solver unknown while enumerating values")
-        m = CTX.solver.model()
-        val = m.eval(t, model_completion=True)
-        CTX.solver.pop()
-        if z3.is_rational_value(val):
-            fr = Fraction(val.numerator_as_long(), val.denominator_as_long())
-        else:  # algebraic
-            fr = Fraction(val.approx(20).numerator_as_long(), val.approx(20).denominator_as_long())
-        k = int(fr)  # trunc
-        if SymBool(_trunc_is(t, k)).__bool__():
+    # deterministic enumeration 0, 1, -1, 2, -2, ... (each `decide` prunes infeasible values)
+    order = [0]
+    for k in range(1, INT_FORK_CAP + 1):
+        order += [k, -k]
+    for k in order:
+        if CTX.decide(_trunc_is(t, k)):
             return k
-        lo_excl.append(k)
+    if CTX.feasible(z3.BoolVal(True)):
+        raise PathCapExceeded(f"int(): value not within +-{INT_FORK_CAP} at " + _caller_site())
+    raise PathAbort("no integer value feasible")
 
 
 def _trunc_is(t, k):
